@@ -273,6 +273,11 @@ func genCheckFile(c *Ctx, f genFile, outDir string, idx int) {
 		c.Fail("gen-plugin-error", desc, res.GetError(), "the generator reported an error on a valid descriptor")
 		return
 	}
+	// whatever the request contains, the plugin says that it understands proto3 optional fields:
+	// protoc refuses plugins that do not as soon as a file uses one (also a file without services)
+	if res.GetSupportedFeatures()&uint64(pluginpb.CodeGeneratorResponse_FEATURE_PROTO3_OPTIONAL) == 0 {
+		c.Fail("gen-features", desc, fmt.Sprint(res.GetSupportedFeatures()), "the response does not advertise FEATURE_PROTO3_OPTIONAL")
+	}
 	if len(f.services) == 0 {
 		if len(res.File) != 0 {
 			c.Fail("gen-no-services", desc, fmt.Sprint(len(res.File)), "a file without services must generate nothing")
